@@ -222,6 +222,8 @@ type storageRunner struct {
 	evRef       time.Time
 	http        *httpState
 	secrets     []string
+	concWorkers int
+	lastBroker  []*protocol.StorageRequest
 }
 
 // serve answers storage requests arriving on the application's storage channel (as the storage
@@ -570,7 +572,7 @@ func (s *storageRunner) step(r *runner, line string) {
 			r.reply("%s%s", renderTopics(reply.(protocol.ConsumerTopics)), tick)
 		}
 	default:
-		if s.httpStep(r, f, line) {
+		if s.httpStep(r, f, line) || s.concStep(r, f, line) {
 			return
 		}
 		r.resolve("%s", line)
